@@ -536,6 +536,7 @@ pub enum Mutation {
     UnknownSubmoduleInConnection,
     UnknownLink,
     IndexOutOfBounds,
+    IndexZeroIntoAtom,
     ZeroGateCluster,
     ZeroSubmoduleCluster,
     UnequalPeers,
@@ -562,6 +563,7 @@ pub const MUTATIONS: &[Mutation] = &[
     Mutation::UnknownSubmoduleInConnection,
     Mutation::UnknownLink,
     Mutation::IndexOutOfBounds,
+    Mutation::IndexZeroIntoAtom,
     Mutation::ZeroGateCluster,
     Mutation::ZeroSubmoduleCluster,
     Mutation::UnequalPeers,
@@ -647,6 +649,21 @@ pub fn mutate(doc: &Doc, m: Mutation, rng: &mut Rng) -> Option<(String, bool)> {
             let last = d.modules[i].conns[k].a.len() - 1;
             // an index of 7 is beyond every generated cluster (and an index into an atom is rejected as well)
             d.modules[i].conns[k].a[last].1 = Some(7);
+            Some((render(&d), reachable(&d, i)))
+        }
+        Mutation::IndexZeroIntoAtom => {
+            // `x[0]` where x is declared without a cluster size: an index into a non-cluster is out of bounds, also for 0
+            let i = rng.usize_below(n);
+            if d.modules[i].generics.is_empty() && rng.chance(1, 2) {
+                d.modules.push(ModDecl { name: "Plug".into(), generics: vec![], inherit: None, gates: vec![Field { name: "p".into(), card: None }], subs: vec![], conns: vec![] });
+                d.modules[i].subs.push(Sub { field: Field { name: "solo".into(), card: None }, typ: "Plug".into(), args: vec![] });
+                d.modules[i].gates.push(Field { name: "sock".into(), card: None });
+                d.modules[i].conns.push(Conn { a: vec![("solo".into(), Some(0)), ("p".into(), None)], b: vec![("sock".into(), None)], link: None });
+            } else {
+                d.modules[i].gates.push(Field { name: "lone".into(), card: None });
+                d.modules[i].gates.push(Field { name: "lone2".into(), card: None });
+                d.modules[i].conns.push(Conn { a: vec![("lone".into(), Some(0))], b: vec![("lone2".into(), None)], link: None });
+            }
             Some((render(&d), reachable(&d, i)))
         }
         Mutation::ZeroGateCluster => {
